@@ -114,14 +114,17 @@ def reindented_below_insert_any(run, idx, path, lineno):
 
 
 def last_line_no_newline(run, idx, path, lineno):
-    """line `lineno` is the last line of a file kept without a final newline: deleting the lines
-    below it changes its line ending, and the deleting session's deletion marker wins the line"""
+    """line `lineno` was the unterminated last line of a file kept without a final newline when text was
+    appended after it: it gained a terminating newline, the line diff does not match it with its previous
+    self and the token diff of the hunk may credit it to whoever appended (known finding, what is left of
+    it after /repo fix 6966bc5b: a line that BECOMES the last line because the lines below it were deleted
+    keeps its attribution and is no longer excused here)"""
     files = run.commits[idx][1]
     try:
         uid = files[path][lineno - 1][2]
     except (KeyError, IndexError):
         return False
-    return (not run.opts(path).get("final_newline", True)) and uid in run.was_last.get(path, set())
+    return (not run.opts(path).get("final_newline", True)) and uid in run.appended_after.get(path, set())
 
 
 def retouched_ws_only_any(run, idx, path, lineno):
